@@ -1196,6 +1196,66 @@ mod same_name {
     }
 }
 
+/// Types that are BOTH the type of a query-parameter field and part of a response body of the
+/// same API (so their definition reaches `components.schemas` along two routes), carrying what
+/// the two routes treat differently: an example, and documented references.
+mod shared {
+    use schemars::JsonSchema;
+    use serde::{Deserialize, Serialize};
+    pub fn example_name() -> Name {
+        Name("my-instance".to_string())
+    }
+    /// Names are short, unique identifiers.
+    #[derive(Deserialize, Serialize, JsonSchema)]
+    #[schemars(example = "example_name")]
+    pub struct Name(pub String);
+    pub fn example_order() -> Order {
+        Order::Descending
+    }
+    /// How to order results.
+    #[derive(Deserialize, Serialize, JsonSchema)]
+    #[serde(rename_all = "snake_case")]
+    #[schemars(example = "example_order")]
+    pub enum Order {
+        Ascending,
+        Descending,
+    }
+    pub fn default_first() -> Name {
+        Name("first".to_string())
+    }
+    /// A range of names.
+    #[derive(Deserialize, Serialize, JsonSchema)]
+    pub struct Span {
+        /// where the range starts
+        #[serde(default = "default_first")]
+        pub start: Name,
+        /// where the range ends (absent: unbounded)
+        pub end: Option<Name>,
+        /// how it is ordered
+        pub order: Option<Order>,
+    }
+    #[derive(Deserialize, JsonSchema)]
+    pub struct SpanQuery {
+        /// name of the thing
+        pub name: Name,
+        pub order: Option<Order>,
+    }
+}
+
+fn da_shared_entry(i: usize) -> DaEntry {
+    let ep = dropshot::ApiEndpoint::new_for_types::<
+        (dropshot::Query<shared::SpanQuery>,),
+        Result<dropshot::HttpResponseOk<W<shared::Span>>, dropshot::HttpError>,
+    >(
+        format!("op{}", i),
+        http::Method::GET,
+        "application/json",
+        &format!("/t{}", i),
+        dropshot::ApiEndpointVersions::All,
+    );
+    ("shared_Span".to_string(), own_expanded::<shared::Span>(), ep)
+}
+
 fn da_stream(out: &mut Out, id: &mut u64, entries: Vec<DaEntry>, order_seed: u64) {
     // one document for all types the converter accepts, registered in a seeded order
     let mut usable: Vec<DaEntry> = entries.into_iter().filter(|e| e.1.is_some()).collect();
@@ -1279,6 +1339,7 @@ fn main() {
             entries.push(da_entry::<same_name::bill::Item>(i + 1, "bill_Item"));
             entries.push(da_entry::<Vec<same_name::bill::Item>>(i + 2, "vec_bill_Item"));
             entries.push(da_entry::<Vec<same_name::inv::Item>>(i + 3, "vec_inv_Item"));
+            entries.push(da_shared_entry(i + 4));
             da_stream(&mut out, &mut id, entries, order_seed);
         }
     }
